@@ -431,3 +431,22 @@ Proof.
           (split_app 46 _ _ [] Nd), (split_app 46 _ _ [] Ne), (split_no_sep 46 _ [] Nf).
   cbn [rev app length Nat.eqb negb mapM]. rewrite Pa, Pb, Pc, Pd, Pe, Pf. reflexivity.
 Qed.
+
+(* the long form on the whole constructor domain (any natural number as id): an id that does not fit 24 bits is refused,
+   so whatever is encoded decodes back to the value that was encoded - no two distinct values share a pattern *)
+Theorem liid_out_of_range_refused i p c s b : 2 ^ 24 <= i -> liid_to_bytes (i, p, c, s, b) = Err ERefused.
+Proof.
+  intros Hi. unfold liid_to_bytes.
+  assert (Ht : to_bytes_be 3 i = Err ERefused).
+  { unfold to_bytes_be. replace (i <? 256 ^ N.of_nat 3) with false; [reflexivity|].
+    symmetry. apply N.ltb_ge. exact Hi. }
+  rewrite Ht. destruct p, c, s, b; reflexivity.
+Qed.
+
+Theorem liid_encode_total_inverse x bs : liid_to_bytes x = Ok bs -> liid_from_bytes bs = Ok x.
+Proof.
+  destruct x as [[[[i p] c] s] b]. intros H.
+  destruct (N.lt_ge_cases i (2 ^ 24)) as [Hi|Hi].
+  - destruct (liid_encode_roundtrip i p c s b Hi) as [E1 E2]. rewrite E1 in H. injection H as <-. exact E2.
+  - rewrite (liid_out_of_range_refused i p c s b Hi) in H. discriminate.
+Qed.
